@@ -91,10 +91,24 @@ def make_index(index: Dict[str, Any], n: int):
         return pd.Index([int(v) for v in lab[:n]], dtype="int64", name="id")
     if kind == "multi":
         return pd.MultiIndex.from_arrays([[int(v) % 2 for v in lab[:n]], [int(v) for v in lab[:n]]], names=["p", "q"])
+    if kind == "float":
+        return pd.Index([float(v) + 0.5 for v in lab[:n]], dtype="float64")
+    if kind == "nan":
+        return pd.Index([float("nan") if i == 0 else float(v) for i, v in enumerate(lab[:n])], dtype="float64")
+    if kind == "categorical":
+        return pd.CategoricalIndex([f"c{int(v) % 3}" for v in lab[:n]])
+    if kind == "tz":
+        return pd.DatetimeIndex([pd.Timestamp("2021-06-01", tz="UTC") + pd.Timedelta(hours=int(v)) for v in lab[:n]])
+    if kind == "stepped":
+        return pd.RangeIndex(start=3 * n, stop=0, step=-3)[:n] if n else pd.RangeIndex(0)
+    if kind == "named_column":
+        # an index that carries the name of one of the table's own columns
+        return pd.Index([int(v) * 7 for v in lab[:n]], dtype="int64", name="g")
     raise ValueError(kind)
 
 
-INDEX_KINDS = ["default", "offset", "shuffled", "strings", "datetime", "duplicate", "named", "multi"]
+INDEX_KINDS = ["default", "offset", "shuffled", "strings", "datetime", "duplicate", "named", "multi", "float", "nan",
+               "categorical", "tz", "stepped", "named_column"]
 
 
 def to_polars(t, lazy: bool = False):
